@@ -121,18 +121,18 @@ def BarWorld.step (w : BarWorld) (p : Nat × BarOp) : BarWorld :=
     frame := if r.2 = [] then w.frame else frameRows r.1 }
 
 /-- every operation of the history is inside the theorem's scope in the state it is applied in: unit-width glyphs, frames that
-fit the height, non-empty first lines, no `suspend` (see `OpOk`) -/
+fit the height, non-empty first lines, non-empty lines from `suspend` closures (see `OpOk`) -/
 def OkRun (W H : Nat) : BarWorld → List (Nat × BarOp) → Prop
   | _, [] => True
   | w, p :: ps => OpOk W H w.bar p.1 p.2 ∧ OkRun W H (w.step p) ps
 
 /-- **C01 for bar operations.** A bar on a fresh terminal of any width `W ≥ 1` and height `H ≥ 1` (any refresh limiter, the code
 as it is now or with any subset of the repairs): after every history of `tick` / `inc` / `dec` / `set_position` / `set_message` /
-`set_prefix` / `set_length` / `unset_length` / `println` / `reset` / `finish*` / `abandon*` / `finish_using_style` / drop calls at
+`set_prefix` / `set_length` / `unset_length` / `println` / `suspend` / `reset` / `finish*` / `abandon*` / `finish_using_style` / drop calls at
 any times — draws skipped by the limiter or the position gate included — the rows down to the cursor are exactly the lines
 printed so far, wrapped at the terminal width, followed by the rendering of the bar's state at the last completed draw, with no
-remnant of an earlier frame, and the cursor is parked for following output. Scope: unit-width glyphs, frames that fit the
-height, non-empty first lines (`OkRun`); `suspend` is covered at the draw-request level and by the BAR stream. -/
+remnant of an earlier frame, and the cursor is parked for following output. Scope (`OkRun`): unit-width glyphs, frames that fit
+the height, non-empty first lines, non-empty lines written by `suspend` closures. -/
 theorem C01_bar_history (fx : Fixes) (W H : Nat) (hW : 0 < W) (hH : 0 < H) (b0 : Bar) (tt0 : TermTarget)
     (hb : b0.target = some tt0) (hT : TInv W H fx tt0) (hllc : tt0.llc = 0) (ops : List (Nat × BarOp))
     (hok : OkRun W H { bar := b0, term := Term.init W H } ops) :
@@ -161,12 +161,13 @@ example :
     let b0 : Bar := { len := some 5, pfx := u [65], tpl := [.prefix, .pos, .lit (u [47]), .len, .lit (u [32]), .msg],
                       target := some { W := 7, H := 4 }, onFinish := .andLeave }
     OkRun 7 4 { bar := b0, term := Term.init 7 4 }
-      [(0, .tick), (1, .setMsg (u [104, 101, 108, 108, 111])), (2, .println (u [76, 49])), (3, .inc 2), (4, .finish .andLeave)] := by
+      [(0, .tick), (1, .setMsg (u [104, 101, 108, 108, 111])), (2, .println (u [76, 49])), (3, .inc 2), (4, .suspend [u [111, 117, 116]]), (5, .finish .andLeave)] := by
   intro u b0
   have fo : ∀ b : Bar, (∀ l ∈ frameLines b, UnitT l.gs) → ((frameRows b).map (fun cs => wrappedHeight 7 (mkLine .bar cs))).sum ≤ 4 →
       firstNonEmpty (frameRows b) → FrameOk 7 4 b := fun b h1 h2 h3 => ⟨h1, by rw [wrapAll_len 7 (by decide)]; exact h2, h3⟩
   simp only [OkRun, OpOk]
-  refine ⟨⟨fo _ ?_ ?_ ?_, trivial⟩, ⟨fo _ ?_ ?_ ?_, trivial⟩, ⟨fo _ ?_ ?_ ?_, ?_, ?_⟩, ⟨fo _ ?_ ?_ ?_, trivial⟩, ⟨fo _ ?_ ?_ ?_, trivial⟩, trivial⟩ <;>
+  refine ⟨⟨fo _ ?_ ?_ ?_, trivial⟩, ⟨fo _ ?_ ?_ ?_, trivial⟩, ⟨fo _ ?_ ?_ ?_, ?_, ?_⟩, ⟨fo _ ?_ ?_ ?_, trivial⟩, ⟨fo _ ?_ ?_ ?_, ?_, ?_⟩,
+    ⟨fo _ ?_ ?_ ?_, trivial⟩, trivial⟩ <;>
     decide +kernel
 
 end IndicatifModel
